@@ -34,6 +34,7 @@ fn side_op_strategy() -> BoxedStrategy<Op> {
 		10 => any::<u16>().prop_map(|s| Op::Step { s }),
 		2 => (any::<u16>(), any::<u16>(), any::<u16>()).prop_map(|(w, payer, amount)| Op::IssueInvoice { w, payer, amount }),
 		1 => (any::<u16>(), any::<bool>(), args()).prop_map(|(w, other_acct, args)| Op::SelfSend { w, other_acct, args }),
+		4 => (any::<u16>(), any::<u16>()).prop_map(|(w, acct)| Op::SwitchAccount { w, acct }),
 	]
 	.boxed()
 }
@@ -52,6 +53,10 @@ impl C05 {
 			base::build(&d, &BaseSpec::standard(v * 2)).expect("base world");
 			bases.push(d);
 		}
+		// equal mining history in both accounts: per-account log ids collide
+		let d = args.scratch.join("c05.base2");
+		base::build(&d, &BaseSpec::balanced()).expect("base world");
+		bases.push(d);
 		C05 {
 			scratch: args.scratch.clone(),
 			bases,
@@ -93,7 +98,7 @@ impl Prop for C05 {
 	}
 	fn strategy(&self, _tier: Tier) -> BoxedStrategy<Case> {
 		(
-			0u8..2,
+			0u8..3,
 			prop::collection::vec(side_op_strategy(), 0..7),
 			0u8..12,
 			send_args_strategy(true, false, true, false),
